@@ -215,6 +215,24 @@ pub fn nesting_texts() -> Vec<String> {
         out.push(format!("-true{}", " -o -false".repeat(n * 4)));
         out.push(format!("-true{}", " , -false".repeat(n * 4)));
     }
+    // groups that hold an operator at every level, the inner group on the left or on the right of
+    // it (a parser that re-reads a group on some path takes time exponential in the depth), in
+    // accepted and in rejected variants (last ')' missing, one ')' too many, unknown word innermost)
+    for n in [8usize, 16, 24, 32, 64] {
+        for op in [" , ", " -o ", " -a ", " "] {
+            for inner in ["-true", "-bogus"] {
+                let left = format!("{}{inner}{}", "( ".repeat(n), format!("{op}-false )").repeat(n));
+                let right = format!("{}{inner}{}", format!("( -false{op}").repeat(n), " )".repeat(n));
+                let neg = format!("{}{inner}{}", "! ( ".repeat(n / 2), format!("{op}-false )").repeat(n / 2));
+                for t in [left, right, neg] {
+                    out.push(t[..t.len() - 2].to_string());
+                    out.push(format!("{t} )"));
+                    out.push(format!("{t}{op}-print"));
+                    out.push(t);
+                }
+            }
+        }
+    }
     out.push("-name ".to_string() + &"x".repeat(4000));
     out.push("-printf '".to_string() + &"%p".repeat(2000) + "'");
     out.push("-true ".repeat(680));
